@@ -16,8 +16,14 @@ for d in sorted(glob.glob(os.path.join(HERE, "seeded", "C*-*"))):
     pid = m["property"]
     chk = (m.get("checks") or {}).get(pid, {})
     keys = ", ".join("`%s`" % k for k in chk.get("keys", [])[:2]) or "-"
-    rows.append("| %s (%s) | %s | %s %s | %s |" % (os.path.basename(d), ", ".join(files), summary, "caught:" if chk.get("caught") else "**MISSED**", keys,
-                                                 m.get("history", "").replace("|", "/")))
+    history = m.get("history", "")
+    if m.get("rebased"):
+        history += "; " + m["rebased"]
+    if m.get("retired"):
+        verdict = "retired (no longer a defect): " + m["retired"]
+    else:
+        verdict = ("caught: " if chk.get("caught") else "**MISSED** ") + keys
+    rows.append("| %s (%s) | %s | %s | %s |" % (os.path.basename(d), ", ".join(files), summary, verdict.replace("|", "/"), history.replace("|", "/")))
 p = os.path.join(HERE, "DESIGN.md")
 s = open(p).read()
 a, b = "<!-- SEEDED-TABLE-BEGIN -->", "<!-- SEEDED-TABLE-END -->"
